@@ -426,6 +426,9 @@ func runC08(c *Ctx) {
 	runC08OneOfPresence(c)
 	runC08Round4(c)
 	runC08IDUnmarshal(c)
+	runC08MigrateSiblings(c)
+	runC08ByteSliceNonNil(c)
+	runC08Round5(c)
 }
 
 func uniq(a, b string) []string {
